@@ -1,0 +1,114 @@
+//go:build verif
+
+// Contracts for the deductive verifier in /verif (govc). Comment-only: this file declares nothing and is
+// compiled only under the build tag `verif`. Syntax: see /verif/DESIGN.md §2.5.
+
+package xds
+
+//@ file rbac.go
+
+//@ func intentionActionFromBool
+//@ props C14
+//@ results a
+//@ ensures[allow-iff-true] (v ==> a == intentionActionAllow) && (!v ==> a == intentionActionDeny)
+
+// Flatten assembles the Envoy permission (Perm AND NOT each of NotPerms, AND the JWT requirements); the protobuf
+// construction is outside the verified subset. ASSUMED frame: it reads the permission and writes nothing.
+//@ func rbacPermission.Flatten
+//@ trusted
+//@ results computed
+//@ modifies nothing
+
+// ---- C14 (precedence removal, permissions of one L7 intention). On a freshly built list (nothing skipped, no
+// negations yet), whatever its length: exactly the permissions whose action differs from the default action are
+// retained; each retained permission is ANDed with the negation of EVERY permission that preceded it in precedence
+// order (retained or not) and of no other; Perm and Action of every element are untouched. So a request is decided by
+// a retained rule iff that rule is the first one in precedence order that matches it - and otherwise by the default.
+//@ func removePermissionPrecedence
+//@ props C14
+//@ results out
+//@ requires[elements] forall j int :: 0 <= j && j < len(perms) ==> perms[j] != nil && allocated(perms[j]) && !perms[j].Skip && len(perms[j].NotPerms) == 0
+//@ requires[distinct] forall a int, b int :: 0 <= a && a < b && b < len(perms) ==> perms[a] != perms[b]
+//@ ensures[retained-are-non-default] forall k int :: 0 <= k && k < len(out) ==> exists j int :: 0 <= j && j < len(perms) && out[k] == perms[j] && perms[j].Action != intentionDefaultAction
+//@ ensures[every-non-default-retained] forall j int :: 0 <= j && j < len(perms) && perms[j].Action != intentionDefaultAction ==> exists k int :: 0 <= k && k < len(out) && out[k] == perms[j]
+//@ ensures[negates-exactly-the-earlier-ones] forall j int :: 0 <= j && j < len(perms) && perms[j].Action != intentionDefaultAction ==> len(perms[j].NotPerms) == j && forall m int :: 0 <= m && m < j ==> perms[j].NotPerms[m] == perms[j-1-m].Perm
+//@ ensures[rules-untouched] forall j int :: 0 <= j && j < len(perms) ==> perms[j].Perm == old(perms[j].Perm) && perms[j].Action == old(perms[j].Action)
+//@ loop 1 invariant[bounds] -1 <= i && i < len(perms)
+//@ loop 1 invariant[skip-decided] forall j int :: i < j && j < len(perms) ==> (perms[j].Skip <==> perms[j].Action == intentionDefaultAction)
+//@ loop 1 invariant[not-yet-processed] forall j int :: 0 <= j && j <= i ==> !perms[j].Skip && len(perms[j].NotPerms) == 0
+//@ loop 1 invariant[negations-so-far] forall j int :: i < j && j < len(perms) && !perms[j].Skip ==> len(perms[j].NotPerms) == j-1-i && forall m int :: 0 <= m && m < j-1-i ==> perms[j].NotPerms[m] == perms[j-1-m].Perm
+//@ loop 1 invariant[rules-untouched] forall j int :: 0 <= j && j < len(perms) ==> perms[j].Perm == old(perms[j].Perm) && perms[j].Action == old(perms[j].Action)
+//@ loop 2 invariant[bounds] i+1 <= j && j <= len(perms) && 0 <= i && i < len(perms)
+//@ loop 2 invariant[skip-decided] forall q int :: i < q && q < len(perms) ==> (perms[q].Skip <==> perms[q].Action == intentionDefaultAction)
+//@ loop 2 invariant[not-yet-processed] forall q int :: 0 <= q && q <= i ==> !perms[q].Skip && len(perms[q].NotPerms) == 0
+//@ loop 2 invariant[done-part] forall q int :: i < q && q < j && !perms[q].Skip ==> len(perms[q].NotPerms) == q-i && forall m int :: 0 <= m && m < q-i ==> perms[q].NotPerms[m] == perms[q-1-m].Perm
+//@ loop 2 invariant[todo-part] forall q int :: j <= q && q < len(perms) && !perms[q].Skip ==> len(perms[q].NotPerms) == q-1-i && forall m int :: 0 <= m && m < q-1-i ==> perms[q].NotPerms[m] == perms[q-1-m].Perm
+//@ loop 2 invariant[rules-untouched] forall q int :: 0 <= q && q < len(perms) ==> perms[q].Perm == old(perms[q].Perm) && perms[q].Action == old(perms[q].Action)
+//@ loop 3 invariant[collected-are-kept] forall k int :: 0 <= k && k < len(out) ==> exists q int :: 0 <= q && q < range3_idx && out[k] == perms[q] && !perms[q].Skip
+//@ loop 3 invariant[kept-are-collected] forall q int :: 0 <= q && q < range3_idx && !perms[q].Skip ==> exists k int :: 0 <= k && k < len(out) && out[k] == perms[q]
+//@ loop 3 invariant[state-after-distribution] forall q int :: 0 <= q && q < len(perms) ==> (perms[q].Skip <==> perms[q].Action == intentionDefaultAction) && perms[q].Perm == old(perms[q].Perm) && perms[q].Action == old(perms[q].Action) && (!perms[q].Skip ==> len(perms[q].NotPerms) == q && forall m int :: 0 <= m && m < q ==> perms[q].NotPerms[m] == perms[q-1-m].Perm)
+
+// FlattenPrincipal builds the Envoy principal (source AND NOT each of NotSources); protobuf construction and the
+// SPIFFE regular expressions are outside the verified subset. ASSUMED frame: reads the intention, writes nothing.
+//@ func rbacIntention.FlattenPrincipal
+//@ trusted
+//@ results computed
+//@ modifies nothing
+
+// The overlap test is used as a deterministic function of the two sources (no side effects) in the contract below; its
+// own result is specified separately.
+//@ func ixnSourceMatches
+//@ props C14
+//@ opt pure yes
+//@ results m
+//@ ensures[only-more-specific-inside] m ==> countWild(tester) < countWild(against) && tester.Peer == against.Peer && (tester.Name == against.Name || against.Name == structs.WildcardSpecifier)
+//@ ensures[never-equally-or-less-specific] countWild(tester) >= countWild(against) ==> !m
+//@ modifies nothing
+
+// ---- C14 (precedence removal, sources). On a freshly built, precedence-ordered list: exactly the intentions whose
+// action differs from the default action are retained; a retained intention j is ANDed with the negation of the
+// source of an earlier intention i exactly when ixnSourceMatches(source_i, source_j) says the earlier source is the
+// more specific one inside source_j - of every such earlier source, and of nothing else.
+//@ func removeSourcePrecedence
+//@ props C14
+//@ results out
+//@ requires[elements] forall j int :: 0 <= j && j < len(rbacIxns) ==> rbacIxns[j] != nil && allocated(rbacIxns[j]) && !rbacIxns[j].Skip && len(rbacIxns[j].NotSources) == 0
+//@ requires[distinct] forall a int, b int :: 0 <= a && a < b && b < len(rbacIxns) ==> rbacIxns[a] != rbacIxns[b]
+//@ ensures[retained-are-non-default] forall k int :: 0 <= k && k < len(out) ==> exists j int :: 0 <= j && j < len(rbacIxns) && out[k] == rbacIxns[j] && rbacIxns[j].Action != intentionDefaultAction
+//@ ensures[every-non-default-retained] forall j int :: 0 <= j && j < len(rbacIxns) && rbacIxns[j].Action != intentionDefaultAction ==> exists k int :: 0 <= k && k < len(out) && out[k] == rbacIxns[j]
+//@ ensures[negated-sources-are-earlier-and-overlapping] forall j int, m int :: 0 <= j && j < len(rbacIxns) && rbacIxns[j].Action != intentionDefaultAction && 0 <= m && m < len(rbacIxns[j].NotSources) ==> exists i int :: 0 <= i && i < j && rbacIxns[j].NotSources[m] == rbacIxns[i].Source && ixnSourceMatches(rbacIxns[i].Source, rbacIxns[j].Source)
+//@ ensures[every-earlier-overlapping-source-negated] forall j int, i int :: 0 <= i && i < j && j < len(rbacIxns) && rbacIxns[j].Action != intentionDefaultAction && ixnSourceMatches(rbacIxns[i].Source, rbacIxns[j].Source) ==> exists m int :: 0 <= m && m < len(rbacIxns[j].NotSources) && rbacIxns[j].NotSources[m] == rbacIxns[i].Source
+//@ ensures[rules-untouched] forall j int :: 0 <= j && j < len(rbacIxns) ==> rbacIxns[j].Source == old(rbacIxns[j].Source) && rbacIxns[j].Action == old(rbacIxns[j].Action)
+//@ loop 1 invariant[bounds] -1 <= i && i < len(rbacIxns) && len(rbacIxns) > 0
+//@ loop 1 invariant[skip-decided] forall j int :: i < j && j < len(rbacIxns) ==> (rbacIxns[j].Skip <==> rbacIxns[j].Action == intentionDefaultAction)
+//@ loop 1 invariant[not-yet-processed] forall j int :: 0 <= j && j <= i ==> !rbacIxns[j].Skip && len(rbacIxns[j].NotSources) == 0
+//@ loop 1 invariant[negated-are-earlier-overlapping] forall j int, m int :: i < j && j < len(rbacIxns) && !rbacIxns[j].Skip && 0 <= m && m < len(rbacIxns[j].NotSources) ==> exists p int :: i < p && p < j && rbacIxns[j].NotSources[m] == rbacIxns[p].Source && ixnSourceMatches(rbacIxns[p].Source, rbacIxns[j].Source)
+//@ loop 1 invariant[earlier-overlapping-negated] forall j int, p int :: i < p && p < j && j < len(rbacIxns) && !rbacIxns[j].Skip && ixnSourceMatches(rbacIxns[p].Source, rbacIxns[j].Source) ==> exists m int :: 0 <= m && m < len(rbacIxns[j].NotSources) && rbacIxns[j].NotSources[m] == rbacIxns[p].Source
+//@ loop 1 invariant[rules-untouched] forall j int :: 0 <= j && j < len(rbacIxns) ==> rbacIxns[j].Source == old(rbacIxns[j].Source) && rbacIxns[j].Action == old(rbacIxns[j].Action)
+//@ loop 2 invariant[bounds] i+1 <= j && j <= len(rbacIxns) && 0 <= i && i < len(rbacIxns)
+//@ loop 2 invariant[skip-decided] forall q int :: i < q && q < len(rbacIxns) ==> (rbacIxns[q].Skip <==> rbacIxns[q].Action == intentionDefaultAction)
+//@ loop 2 invariant[not-yet-processed] forall q int :: 0 <= q && q <= i ==> !rbacIxns[q].Skip && len(rbacIxns[q].NotSources) == 0
+//@ loop 2 invariant[negated-are-earlier-overlapping] forall q int, m int :: i < q && q < len(rbacIxns) && !rbacIxns[q].Skip && 0 <= m && m < len(rbacIxns[q].NotSources) ==> exists p int :: i <= p && p < q && (p > i || q < j) && rbacIxns[q].NotSources[m] == rbacIxns[p].Source && ixnSourceMatches(rbacIxns[p].Source, rbacIxns[q].Source)
+//@ loop 2 invariant[earlier-overlapping-negated] forall q int, p int :: i <= p && p < q && q < len(rbacIxns) && (p > i || q < j) && !rbacIxns[q].Skip && ixnSourceMatches(rbacIxns[p].Source, rbacIxns[q].Source) ==> exists m int :: 0 <= m && m < len(rbacIxns[q].NotSources) && rbacIxns[q].NotSources[m] == rbacIxns[p].Source
+//@ loop 2 invariant[rules-untouched] forall q int :: 0 <= q && q < len(rbacIxns) ==> rbacIxns[q].Source == old(rbacIxns[q].Source) && rbacIxns[q].Action == old(rbacIxns[q].Action)
+//@ loop 3 invariant[collected-are-kept] forall k int :: 0 <= k && k < len(out) ==> exists q int :: 0 <= q && q < range3_idx && out[k] == rbacIxns[q] && !rbacIxns[q].Skip
+//@ loop 3 invariant[kept-are-collected] forall q int :: 0 <= q && q < range3_idx && !rbacIxns[q].Skip ==> exists k int :: 0 <= k && k < len(out) && out[k] == rbacIxns[q]
+//@ loop 3 invariant[state-after-distribution] forall q int :: 0 <= q && q < len(rbacIxns) ==> (rbacIxns[q].Skip <==> rbacIxns[q].Action == intentionDefaultAction) && rbacIxns[q].Source == old(rbacIxns[q].Source) && rbacIxns[q].Action == old(rbacIxns[q].Action)
+//@ loop 3 invariant[negations-final] (forall q int, m int :: 0 <= q && q < len(rbacIxns) && !rbacIxns[q].Skip && 0 <= m && m < len(rbacIxns[q].NotSources) ==> exists p int :: 0 <= p && p < q && rbacIxns[q].NotSources[m] == rbacIxns[p].Source && ixnSourceMatches(rbacIxns[p].Source, rbacIxns[q].Source)) && (forall q int, p int :: 0 <= p && p < q && q < len(rbacIxns) && !rbacIxns[q].Skip && ixnSourceMatches(rbacIxns[p].Source, rbacIxns[q].Source) ==> exists m int :: 0 <= m && m < len(rbacIxns[q].NotSources) && rbacIxns[q].NotSources[m] == rbacIxns[p].Source)
+
+// ---- C14 (same-source shadowing). In a precedence-ordered list, of several intentions with the same source (name and
+// peer) only the first - the one with the highest precedence - survives; the others can never be the first match.
+//@ pure srcOf(x *structs.Intention) structs.PeeredServiceName = structs.PeeredServiceName{ServiceName: x.SourceServiceName(), Peer: x.SourcePeer}
+
+//@ func removeSameSourceIntentions
+//@ props C14
+//@ results out
+//@ requires[elements] forall j int :: 0 <= j && j < len(intentions) ==> intentions[j] != nil
+//@ ensures[only-input-elements] forall k int :: 0 <= k && k < len(out) ==> exists j int :: 0 <= j && j < len(intentions) && out[k] == intentions[j]
+//@ ensures[first-of-each-source-kept] forall j int :: 0 <= j && j < len(intentions) && (forall p int :: 0 <= p && p < j ==> srcOf(intentions[p]) != srcOf(intentions[j])) ==> exists k int :: 0 <= k && k < len(out) && out[k] == intentions[j]
+//@ ensures[shadowed-ones-dropped] forall k int :: 0 <= k && k < len(out) ==> exists j int :: 0 <= j && j < len(intentions) && out[k] == intentions[j] && (forall p int :: 0 <= p && p < j ==> srcOf(intentions[p]) != srcOf(intentions[j]))
+//@ modifies nothing
+//@ loop 1 invariant[seen-are-the-visited-sources] forall key structs.PeeredServiceName :: has(seenSource, key) <==> exists p int :: 0 <= p && p < range1_idx && srcOf(intentions[p]) == key
+//@ loop 1 invariant[collected-are-firsts] forall k int :: 0 <= k && k < len(out) ==> exists j int :: 0 <= j && j < range1_idx && out[k] == intentions[j] && (forall p int :: 0 <= p && p < j ==> srcOf(intentions[p]) != srcOf(intentions[j]))
+//@ loop 1 invariant[firsts-are-collected] forall j int :: 0 <= j && j < range1_idx && (forall p int :: 0 <= p && p < j ==> srcOf(intentions[p]) != srcOf(intentions[j])) ==> exists k int :: 0 <= k && k < len(out) && out[k] == intentions[j]
+//@ loop 1 invariant[unchanged-means-all-kept] !changed ==> len(out) == range1_idx && forall k int :: 0 <= k && k < len(out) ==> out[k] == intentions[k]
